@@ -175,10 +175,13 @@ def act_code(akind: str, a) -> int:
     return int(np.asarray(a)) if akind == "disc" else tb.q4(a)
 
 
-def record_onpolicy(cache: tb.EnvCache, cfg: dict, algo_name: str, N: int, iters: int, seed: int) -> list:
-    """cfg: MDP + stack + policy tables + g2, l2, T.  Returns one trace per (iteration, environment stream)."""
-    env = cache.get(cfg)
+def record_onpolicy(cache: tb.EnvCache, cfg: dict, algo_name: str, N: int, iters: int, seed: int,
+                    env=None, state_proj=None) -> list:
+    """cfg: MDP + stack + policy tables + g2, l2, T.  Returns one trace per (iteration, environment stream).
+    `env` / `state_proj` override the environment object and the state projection (used for adapted environments)."""
+    env = env if env is not None else cache.get(cfg)
     depth = len(cfg["stack"])
+    state_proj = state_proj or (lambda st: tb.proj_env_state(st, depth))
     asp, osp = tb.outer_spaces(cfg)
     T = cfg["H"]
     policy = tb.TableACPolicy(env, cfg)
@@ -211,9 +214,9 @@ def record_onpolicy(cache: tb.EnvCache, cfg: dict, algo_name: str, N: int, iters
                     rew=half(b.rewards[t]), done=bool(b.dones[t]), logp=tb.q4(b.log_probs[t]), val=tb.q4(b.values[t]) // 4
                     if tb.q4(b.values[t]) % 4 == 0 else 7777777, pstate=int(b.states.n[t]),
                     mask=[bool(x) for x in b.action_masks[t]] if b.action_masks is not None else []))
-            init = dict(tb.proj_env_state(s0.env_state, depth), ps=int(s0.policy_state.n),
+            init = dict(state_proj(s0.env_state), ps=int(s0.policy_state.n),
                         stats=proj_stats(s0.callback_state.states[1]))
-            fin = dict(tb.proj_env_state(s1.env_state, depth), ps=int(s1.policy_state.n),
+            fin = dict(state_proj(s1.env_state), ps=int(s1.policy_state.n),
                        adv=[fx(x, D) for x in b.advantages], ret=[fx(x, D) for x in b.returns],
                        stats=proj_stats(s1.callback_state.states[1]))
             done_count[e] += sum(1 for r in rows if r["done"])
